@@ -37,19 +37,27 @@ class FloatSeen(Exception):
     pass
 
 
+class HarnessConversion(Exception):
+    """a value RETURNED by the library could not be written as an exact rational (NaN, infinity, bool, not a number).
+    Its own class, so that `capture` never reports it under the name of an exception the library may legitimately raise
+    (a NaN inside an accepted result once looked like a ValueError refusal)."""
+
+
 def out_num(x):
     """Exact text of a returned number; floats are converted exactly and flagged."""
     if isinstance(x, (bool, np.bool_)):
-        raise TypeError("bool where a number was expected")
+        raise HarnessConversion("bool where a number was expected")
     if isinstance(x, (int, np.integer)):
         return f"{int(x)}/1"
     if isinstance(x, F):
         return f"{x.numerator}/{x.denominator}"
     if isinstance(x, (float, np.floating)):
+        if not np.isfinite(x):
+            raise HarnessConversion(f"non-finite value returned: {x!r}")
         fx = F(float(x))
         FLOATS.append(float(x))
         return f"{fx.numerator}/{fx.denominator}"
-    raise TypeError(f"not a number: {type(x).__name__}")
+    raise HarnessConversion(f"not a number: {type(x).__name__}")
 
 
 FLOATS: list = []
